@@ -176,4 +176,38 @@ def Metric.instances (m : Metric) (x : List Rat) : List Int := x.map (fun v => i
 /-- `calculate_exceedance_probability`: `einsum("ijk -> jk", inst) / inst.shape[0]` (at least one time step) -/
 def Metric.prob (m : Metric) (x : List Rat) : Rat := (((m.instances x).sum : Int) : Rat) / (x.length : Rat)
 
+/-! ### what the public functions report -/
+
+/-- `calculate_conditional_joint_threshold_exceedance`: `_calculate_chi(...) * 100` (percent) -/
+def chiPercent (i1 i2 : List Int) : Except String Rat := (chi i1 i2).map (· * 100)
+
+/-- `calculate_bias_days_metrics`, one location: the columns `CM`, `Obs`, `Bias = CM − Obs` (mean exceedance days per year) -/
+def daysMetrics (yearsCm instCm yearsObs instObs : List Int) : Rat × Rat × Rat :=
+  let c := meanYearlyExceedances yearsCm instCm
+  let o := meanYearlyExceedances yearsObs instObs
+  (c, o, c - o)
+
+/-- **Row order of the result frames**: one block per debiaser (keyword order of `**cm_data` / `**debiased_cms`), inside a
+    block one row per entry of `statistics` followed by `metrics`, in list order.  `val k j` is the quantity of entry `j`
+    for debiaser `k`; the label (`"Mean"`, `"0.05 qn"`, `metric.name`) is only copied into the row. -/
+def frameRows {κ ν} (keys : List κ) (n : Nat) (label : Nat → String) (val : κ → Nat → ν) : List (κ × String × ν) :=
+  keys.flatMap (fun k => (List.range n).map (fun j => (k, label j, val k j)))
+
+/-- the documented default arguments of the public functions (parameter, default as Python source text) -/
+def documentedDefaults : List (String × String × String) :=
+  [("calculate_marginal_bias", "statistics", "['mean', 0.05, 0.95]"),
+   ("calculate_marginal_bias", "metrics", "[]"),
+   ("calculate_marginal_bias", "percentage_or_absolute", "'percentage'"),
+   ("calculate_bias_days_metrics", "metrics", "[]"),
+   ("calculate_future_trend_bias", "statistics", "['mean', 0.05, 0.95]"),
+   ("calculate_future_trend_bias", "trend_type", "'additive'"),
+   ("calculate_future_trend_bias", "metrics", "[]"),
+   ("calculate_future_trend_bias", "time_validate", "None"),
+   ("calculate_future_trend_bias", "time_future", "None"),
+   ("calculate_future_trend", "statistics", "['mean', 0.05, 0.95]"),
+   ("calculate_future_trend", "trend_type", "'additive'"),
+   ("calculate_future_trend", "metrics", "[]"),
+   ("calculate_future_trend", "time_validate", "None"),
+   ("calculate_future_trend", "time_future", "None")]
+
 end Model.Evaluate
